@@ -22,6 +22,16 @@ def sh(cmd, cwd=None, env=None, timeout=3000):
     return p.returncode, (p.stdout + p.stderr)
 
 
+def evidence_backup():
+    """evidence files are records of runs on the UNCHANGED tree: a run against a seeded change must not leave its record behind"""
+    return {f.name: f.read_text() for f in (V / "evidence").glob("*.json")}
+
+
+def evidence_restore(saved):
+    for name, text in saved.items():
+        (V / "evidence" / name).write_text(text)
+
+
 def main():
     pid, wt = sys.argv[1], sys.argv[2]
     checks = [pid]
@@ -32,6 +42,7 @@ def main():
         if a == "--tier":
             tier = sys.argv[i + 1]
     out = Path(wt) / "seed_out"
+    _saved_evidence = evidence_backup()
     env = {"PYTHONPATH": wt, "PYTHONDONTWRITEBYTECODE": "1"}
     for diff in sorted(out.glob("m*.diff")):
         k = diff.stem
@@ -98,6 +109,7 @@ def main():
     rc, o = sh("git status --porcelain", cwd="/repo")
     assert o.strip() == "", "/repo left dirty: " + o
     sh("/venv/bin/python harness/regen_all.py", cwd=V)      # Gen/*.lean back to what the unchanged sources say
+    evidence_restore(_saved_evidence)
 
 
 if __name__ == "__main__":
